@@ -1,1 +1,109 @@
-(* placeholder: to be written *)
+(** Trace checker for the router correspondence run: replays the operations the harness executed on
+    the real router + pair contracts and compares every observation.  Returns [] or
+    [index; field; model value; implementation value] for the first difference.
+    Field codes: 1 = Ok/Err, 2 = returned values, 3 = router state flag, 4 = pair creation flag,
+    5 = getAllPairsManagedAddresses, 4000 + 10a + b = getPair(a, b), 6000 + 10*account + token = balance,
+    1000*address + k = k-th observable of the pair contract at that address (99 = contract missing). *)
+From MX Require Import Base.Prelude Gen.Params Model.Pair Model.Router.
+
+Record robs := mkRObs {
+  o_ok : bool;
+  o_outs : list Z;
+  o_active : bool; o_creation : bool;      (* views getState, getPairCreationEnabled *)
+  o_getpair : list (Z * Z * Z);            (* (a, b, view getPair(a, b) as address id; 0 = zero address) *)
+  o_all : list Z;                          (* view getAllPairsManagedAddresses as address ids *)
+  o_led : list (Z * Z * Z);                (* (account, token, real ESDT balance): router, users, owner *)
+  o_pairs : list (Z * list Z)              (* per pair contract: address id, observables (see [pair_vec]) *)
+}.
+
+Definition b2z (b : bool) : Z := if b then 1 else 0.
+
+Fixpoint list_eqb (a b : list Z) : bool :=
+  match a, b with
+  | [], [] => true
+  | x :: a', y :: b' => (x =? y) && list_eqb a' b'
+  | _, _ => false
+  end.
+
+Fixpoint first_diff (k : Z) (a b : list Z) : option (Z * Z * Z) :=
+  match a, b with
+  | [], [] => None
+  | x :: a', y :: b' => if x =? y then first_diff (k + 1) a' b' else Some (k, x, y)
+  | x :: _, [] => Some (k, x, -1)
+  | [], y :: _ => Some (k, -1, y)
+  end.
+
+(** state; reserves; LP supply; real balances; fee percents; LP token set; fee enabled; reported tokens *)
+Definition pair_vec (pe : pent) : list Z :=
+  let p := pe_p pe in
+  [p_state p; p_r1 p; p_r2 p; p_S p; p_bal1 p; p_bal2 p; p_fee p; p_sfee p;
+   b2z (pe_lp pe); b2z (fee_enabled p); pe_t1 pe; pe_t2 pe].
+
+Fixpoint cmp_pairs (i : Z) (w : world) (l : list (Z * list Z)) : list Z :=
+  match l with
+  | [] => []
+  | (a, v) :: t =>
+      match pair_at (w_pairs w) a with
+      | None => [i; 1000 * a + 99; 0; 1]
+      | Some pe =>
+          match first_diff 0 (pair_vec pe) v with
+          | Some (k, m, x) => [i; 1000 * a + k; m; x]
+          | None => cmp_pairs i w t
+          end
+      end
+  end.
+
+Fixpoint cmp_getpair (i : Z) (w : world) (l : list (Z * Z * Z)) : list Z :=
+  match l with
+  | [] => []
+  | (a, b, v) :: t =>
+      let m := match get_pair (r_map (w_r w)) a b with Some p => p | None => 0 end in
+      if m =? v then cmp_getpair i w t else [i; 4000 + 10 * a + b; m; v]
+  end.
+
+Fixpoint cmp_led (i : Z) (w : world) (l : list (Z * Z * Z)) : list Z :=
+  match l with
+  | [] => []
+  | (a, t, v) :: tl =>
+      if lget (w_led w) a t =? v then cmp_led i w tl else [i; 6000 + 10 * a + t; lget (w_led w) a t; v]
+  end.
+
+Definition cmp_state (i : Z) (w : world) (o : robs) : list Z :=
+  let r := w_r w in
+  if negb (Bool.eqb (r_active r) (o_active o)) then [i; 3; b2z (r_active r); b2z (o_active o)]
+  else if negb (Bool.eqb (r_creation r) (o_creation o)) then [i; 4; b2z (r_creation r); b2z (o_creation o)]
+  else match first_diff 0 (all_pairs (r_map r)) (o_all o) with
+       | Some (k, m, x) => [i; 5; m; x]
+       | None =>
+       match cmp_getpair i w (o_getpair o) with
+       | [] =>
+         match cmp_led i w (o_led o) with
+         | [] => cmp_pairs i w (o_pairs o)
+         | d => d
+         end
+       | d => d
+       end end.
+
+Fixpoint check_trace (w : world) (i : Z) (tr : list (rop * robs)) : list Z :=
+  match tr with
+  | [] => []
+  | (op, o) :: t =>
+      match rstep w op with
+      | Ok (w', outs) =>
+          if negb (o_ok o) then [i; 1; 1; 0]
+          else match first_diff 0 outs (o_outs o) with
+               | Some (k, m, x) => [i; 2; m; x]
+               | None =>
+                 match cmp_state i w' o with
+                 | [] => check_trace w' (i + 1) t
+                 | d => d
+                 end
+               end
+      | Err _ =>
+          if o_ok o then [i; 1; 0; 1]
+          else match cmp_state i w o with
+               | [] => check_trace w (i + 1) t
+               | d => d
+               end
+      end
+  end.
